@@ -344,9 +344,9 @@ func (c *Collection) WriteCas(key string, exp Exp, cas CAS, val any, opt sgbucke
 				   WHERE collection=?3 AND key=?4 AND cas=?5`
 		} else if (opt&sgbucket.AddOnly) != 0 || cas == 0 {
 			// Insert, but fall back to Update if the doc is a tombstone
-			sql = `INSERT INTO documents (collection, key, value, cas, exp, isJSON,revSeqNo) VALUES(?3,?4,?1,?2,?6,?7,?8)
+			sql = `INSERT INTO documents (collection, key, value, cas, exp, isJSON,revSeqNo,tombstone) VALUES(?3,?4,?1,?2,?6,?7,?8,?1 IS NULL)
 					ON CONFLICT(collection,key) DO
-						UPDATE SET value=?1, xattrs=null, cas=?2, exp=?6, isJSON=?7, tombstone=0, revSeqNo=?8
+						UPDATE SET value=?1, xattrs=null, cas=?2, exp=?6, isJSON=?7, tombstone=(?1 IS NULL), revSeqNo=?8
 						WHERE tombstone == 1`
 			if !wasTombstone && cas != 0 {
 				sql += ` AND cas=?5`
